@@ -265,8 +265,10 @@ def reference_verdict(rec, keys):
     if rec.get("api") == "with_signature":
         sig = bytes.fromhex(rec["sig_hex"])
     else:
-        if rec.get("etag_count", 1 if rec.get("etag_hex") is not None else 0) != 1 or rec.get("etag_hex") is None:
-            return False, "no single ETag header", False, None
+        # etag_count > 1 means the *same* header value is present several times (the records cannot express
+        # differing values); identical copies carry the same authentic value
+        if rec.get("etag_count", 1 if rec.get("etag_hex") is not None else 0) < 1 or rec.get("etag_hex") is None:
+            return False, "no ETag header", False, None
         raw = bytes.fromhex(rec["etag_hex"])
         if any(not (0x20 <= c <= 0x7E or c == 0x09) for c in raw):
             return False, "ETag is not visible ASCII", False, None
